@@ -155,6 +155,21 @@ CLAIMED['C08'] = dict(
          "predicate, FormatLines.newline_count = trailing newlines (C07). Outside: list machinery, copied code, lower > upper.",
     design='§5 C08')
 
+CLAIMED['C09'] = dict(
+    category='other',
+    text="First half of C09 (2015 = 2018 = 2021), decided where the code can tell style editions apart: the lib MIR is scanned for every comparison call on "
+         "StyleEdition (lt/le/gt/ge/eq/ne), every switchInt on a StyleEdition discriminant and all 89 macro-generated style_edition_default bodies. For each "
+         "comparison site the constant operand is recovered from the promoted constant and the outcome is computed through the real "
+         "<StyleEdition as PartialOrd>::partial_cmp MIR for a symbolic pair of editions inside the class; the solver shows the outcomes equal. A match "
+         "that sends the three members to different blocks, or two default paths with different values both reachable inside the class, is a violation. "
+         "Byte-identity with the pinned release is outside solver-based checking and not claimed.",
+    note="Level other: non-interference of a 3-element class, decided per decision site. Trusted: MIR printer (promoted constants, call names), mirsym, "
+         "rustc_span Edition order = discriminant order. Sites in src/config (conversion, printing, is_default) and derived impls legitimately inspect the "
+         "edition; they are listed in evidence, not checked. Replay: the real binary with --style-edition 2015/2018/2021 over tests/source, tests/target, "
+         "src and two crafted files.",
+    design='§5 C09',
+    technique="solver-decided non-interference per decision site: MIR scan + symbolic execution of the real partial_cmp (mirsym), cvc5/z3; corpus replay")
+
 NA = {
     'C01': "token-sequence equivalence over all programs requires symbolic execution of rustc_parse and ~30 kLoC of AST rewriters; no encodable kernel carries it",
     'C02': "fixed-point of the full formatting pipeline (parser + all rewriters on both sides); not encodable, and idempotence of kernels does not imply it",
